@@ -49,6 +49,21 @@ def cases(tier, seed):
         for rule in ("Plurality", "Borda", "IRV", "STV", "STV1", "TopTwo", "Approval"):
             for m in (1, 2):
                 cs.insert(0, (rule, c3, bl, m, "random"))
+    # several candidates without a first-place vote: every elimination among them is a tie and must be recorded
+    c5 = gen.NAMES[:5]
+    one = lambda *cs_: tuple(frozenset([c]) for c in cs_)
+    for bl in ([(one("A"), F(10)), (one("B", "A"), F(1))], [(one("A", "B"), F(5)), (one("B", "A"), F(4)), (one("A", "D"), F(1))], [(one("C", "D"), F(3)), (one("D", "C"), F(3))]):
+        for rule in ("STV", "STV1", "IRV", "SequentialRCV"):
+            for m in (1, 2):
+                cs.insert(0, (rule, c5, bl, m, "random"))
+    # tiebreak_set itself under a scripted random.sample: candidates are ordered by the exact tally of the profile (first-place votes
+    # split among tied first choices, Borda with averaged ties), and candidates the tally leaves tied follow the random draw
+    j = 0
+    for cands, bl in gen.profiles_exhaustive(3, 2, [F(1), F(2)], ties=True):
+        j += 1
+        if any(len(r[0]) > 1 for r, _ in bl) and (tier != "quick" or j % 2 == 0):
+            for tb in ("first_place", "borda"):
+                cs.insert(0, ("tbset", cands, bl, 1 + j % 2, tb))
     # runoff / stage ties that only appear after transfers: 3 ballots with weights up to 3
     k = 0
     for cands, bl in gen.profiles_exhaustive(3, 3, [F(1), F(2), F(3)]):
@@ -95,8 +110,46 @@ def outcome(e):
             for s in e.election_states]
 
 
+def check_tbset(case):
+    import io
+    import contextlib
+    import itertools
+    import votekit.utils as U
+    _, cands, bl, m, tb = case
+    Wd = oracle.W_of(bl)
+    sc = oracle.fpv(cands, Wd) if tb == "first_place" else oracle.borda(cands, Wd)
+    out = {"evals": 0, "key": ("tbset", tb, gen.canon(cands, bl)), "violations": [], "nontrivial": len(set(sc.values())) < len(sc)}
+    desc = dict(gen.lit(cands, bl), check="tiebreak_set", tiebreak=tb)
+    prof = gen.mk_profile(cands, bl)
+    real = U.random.sample
+    for tied in (frozenset(cands), frozenset(cands[:2]), frozenset(cands[1:])):
+        for script in list(itertools.permutations(sorted(tied)))[:: (1 if len(tied) < 3 else 2)]:
+            U.random.sample = lambda population, k, _s=script: [c for c in _s if c in set(population)][:k]
+            try:
+                with contextlib.redirect_stdout(io.StringIO()):
+                    res = U.tiebreak_set(tied, prof, tb)
+            except Exception as ex:
+                out["violations"].append({"key": f"C10:tiebreak_set:{type(ex).__name__}", "what": repr(ex) + f" on {desc}", "input": desc})
+                return out
+            finally:
+                U.random.sample = real
+            out["evals"] += 1
+            exp = sorted(tied, key=lambda c: (-sc[c], script.index(c)))
+            got = [next(iter(g)) for g in res] if all(len(g) == 1 for g in res) else None
+            if got != exp:
+                out["violations"].append({"key": f"C10:tiebreak_set[{tb}]:order",
+                                          "what": f"tiebreak_set({sorted(tied)}, profile, {tb!r}) with scripted draw {script} gave {res}, expected {exp} "
+                                                  f"(exact tallies {({c: str(v) for c, v in sc.items()})}) on {desc}", "input": desc})
+                return out
+    if out["nontrivial"]:
+        out["sample"] = desc
+    return out
+
+
 def check_case(case):
     import numpy as np
+    if case[0] == "tbset":
+        return check_tbset(case)
     rule, cands, bl, m, tb = case
     out = {"evals": 0, "key": (rule, m, tb, gen.canon(cands, bl)), "violations": [], "nontrivial": False}
     desc = dict(gen.lit(cands, bl), rule=rule, m=m, tiebreak=tb)
@@ -140,6 +193,13 @@ def check_case(case):
         viol("unrecorded-randomness", f"outcome differs between seeds {seeds} although no round records a tiebreak: {outs[0]} vs {next(o for o in outs if o != outs[0])}")
     if any(recorded) != all(recorded) and False:
         pass
+    if rule in ("STV", "STV1", "IRV", "SequentialRCV"):
+        for e in runs[:1]:
+            for r in range(1, len(e.election_states)):
+                s_, prev = e.election_states[r], e.election_states[r - 1]
+                elim = [c for g in s_.eliminated for c in g]
+                if elim and prev.remaining and len(prev.remaining[-1]) > 1 and set(elim) <= set(prev.remaining[-1]) and not s_.tiebreaks:
+                    viol("unrecorded-elimination-tie", f"round {r}: {elim} eliminated out of the tied lowest group {set(prev.remaining[-1])} but no tiebreak is recorded")
     for e in runs:
         init_f = f0
         init_b = oracle.borda(cands, Wd)
